@@ -2,6 +2,8 @@ import VlsModel.Model.Onchain
 import VlsModel.Gen.FnSimple
 import VlsModel.Gen.FnOnchainTx
 import VlsModel.Gen.FnTxUtilC08
+import VlsModel.Gen.FnDerive
+import VlsModel.Model.Wallet
 import VlsModel.Lemmas.FnGen
 /-
 C08 — `Onchain.beneficialValue` (the fee bound of `sign_onchain_tx`) proved equal to the body of
@@ -280,7 +282,7 @@ theorem sumInputs_le (vals : List Nat) (acc s : Nat) (ha : acc ≤ U64.MAX) (h :
 
 /-- `validate_beneficial_value` as translated inside this unit (same text as in `Gen/FnSimple.lean`) -/
 theorem beneficial_eq (p : Policy) (sumIn sumOut weight : Nat) (hin : sumIn ≤ Rs.U64_MAX) :
-    Gen.FnOnchainTx.SimpleValidator.validate_beneficial_value (filtP p.flt) (toVTx p) sumIn sumOut weight
+    Gen.FnOnchainTx.SimpleValidator.validate_beneficial_value (policy_filter_err := filtP p.flt) (toVTx p) sumIn sumOut weight
       = enc (beneficialValue p sumIn sumOut weight) := by
   unfold Gen.FnOnchainTx.SimpleValidator.validate_beneficial_value beneficialValue impliedFeerate U64.checkedSub
   simp only [Rs.okOr, Rs.ucheckedSub]
@@ -320,7 +322,7 @@ theorem tail_eq (p : Policy) (r : Req) (w : Nat) (L : LoopRes) :
                 (fun sum_inputs val =>
                   Rs.okOr (Rs.ucheckedAdd Rs.U64_MAX sum_inputs val) "policy-onchain-fee-range" >>= fun t_15 => pure t_15)
                 0 r.inValues
-          Gen.FnOnchainTx.SimpleValidator.validate_beneficial_value (filtP p.flt) (toVTx p) sum_inputs __x.fst w)
+          Gen.FnOnchainTx.SimpleValidator.validate_beneficial_value (policy_filter_err := filtP p.flt) (toVTx p) sum_inputs __x.fst w)
       = enc (match L with
              | .panic => .panic
              | .err t => .err t
@@ -353,8 +355,9 @@ theorem tail_eq (p : Policy) (r : Req) (w : Nat) (L : LoopRes) :
 /-- **`validate_onchain_tx` = `Onchain.validateOnchain`**, for every policy (filter, dev flag, max feerate), request
     (version, size, inputs, segwit flags, outputs with their wallet / allowlist / channel facts) and weight -/
 theorem C08_fn_validate_onchain_tx (p : Policy) (r : Req) (w : Nat) (opaths : List Nat) (hop : OpathsOf r opaths) :
-    Gen.FnOnchainTx.SimpleValidator.validate_onchain_tx (filtP p.flt) (fun _ => r.baseSize) (nonMalleableE r) id canSpendE allowE 0
-        (fun keys _ => keys) (toVTx p) () (channelsOf r) (toTx r) r.segwit r.inValues opaths w
+    Gen.FnOnchainTx.SimpleValidator.validate_onchain_tx (policy_filter_err := filtP p.flt) (ext_base_size := fun _ => r.baseSize)
+        (ext_is_tx_non_malleable := nonMalleableE r) (ext_len := id) (ext_can_spend := canSpendE) (ext_allowlist_contains := allowE)
+        (ext_master_path := 0) (ext_funding_script_pubkey := fun keys _ => keys) (toVTx p) () (channelsOf r) (toTx r) r.segwit r.inValues opaths w
       = enc (validateOnchain p r w) := by
   obtain ⟨hlen, hop⟩ := hop
   unfold Gen.FnOnchainTx.SimpleValidator.validate_onchain_tx
@@ -490,5 +493,14 @@ theorem C08_fn_validate_onchain_tx (p : Policy) (r : Req) (w : Nat) (opaths : Li
               true_and, and_false, enc, Rs.fail, Tag.name] <;> rfl
         · simp [c3, enc, bind, Except.bind]
 
+
+/-! ## `KeyDerivationStyle::get_key_path_len` (the path-length rule of `get_wallet_pubkey`, hence of `can_spend`) -/
+
+def toStyle : Wallet.Style → Gen.FnDerive.KeyDerivationStyle
+  | .native => .Native | .ldk => .Ldk | .lnd => .Lnd
+
+theorem C08_fn_get_key_path_len (st : Wallet.Style) :
+    Gen.FnDerive.KeyDerivationStyle.get_key_path_len (toStyle st) = st.keyPathLen := by
+  cases st <;> rfl
 
 end VlsModel.Props.C08Fn
